@@ -14,7 +14,12 @@ from . import lib_ringgen as G
 
 PROPS = ['PGA.Props.C09']
 GEN = ['Chars', 'RingChars', 'RingGrammar', 'RingElements']
-OBLIGATIONS = []          # filled below
+OBLIGATIONS = ['PGA.Ring.' + t for t in [
+    'C09_tab_refs_defined_enhanced', 'C09_tab_refs_defined_strict', 'C09_tab_tokens_nonempty_enhanced',
+    'C09_tab_tokens_nonempty_strict', 'C09_tab_wellranked_enhanced', 'C09_tab_wellranked_strict',
+    'C09_tab_decimal_convertible', 'C09_never_stuck', 'C09_shipped_never_stuck', 'C09_position_invariant',
+    'C09_error_inside', 'C09_accepted_consumed', 'C09_read_query_consumed', 'C09_read_syntax_inside',
+    'C09_read_no_hang', 'C09_read_internal_partial']]
 RULE = ('cases = input strings: every RING text shipped in pgradd/data/*/scheme.yaml; valid fragments and rules from a semantic '
         'generator; grammar-directed random walks over the live grammar objects (both dictionaries); EVERY prefix of a sample of '
         'them and token-boundary prefixes of the rest; single-token delete/substitute/duplicate/insert/swap/character edits; '
@@ -277,7 +282,7 @@ def valid_fragment(rng, toks_only=True, kind='fragment', name=None, labels=None)
     prefixes = literal_alts('AtomPrefix')
     out = []
     p = []
-    if rng.random() < 0.25:
+    if rng.random() < 0.4:
         for rule in ('Prefix',):
             from pgradd.RINGParser import Grammar
             body = Grammar.enhanced_grammar[1].get('Prefix')
@@ -350,7 +355,48 @@ def valid_rule(rng):
     """an electron-balanced reaction rule over one or two reactants"""
     labels = []
     out = ['rule', rng.choice(G.NAMES[:5]), '{']
-    k = rng.choice([0, 0, 1, 2, 3, 4])
+    k = rng.choice([0, 1, 2, 3, 4, 4, 4, 5, 5])
+    if k == 5:      # duplicates / group reactants (shared query objects, label renaming)
+        frag, mine = valid_fragment(rng, kind='reactant', name='r1', labels=labels)
+        out += frag
+        new = ['d%d' % i for i in range(len(mine))]
+        pairs = list(zip(mine, new))
+        style = rng.random()
+        if style < 0.25 and pairs:
+            pairs = pairs[:-1]                                  # mapping too short
+        elif style < 0.4:
+            pairs = pairs + [(rng.choice(mine), 'e9')]          # a key mapped twice
+        elif style < 0.5:
+            pairs = [(a + 'x', b) for a, b in pairs]            # unknown labels, right length
+        src = 'r1' if rng.random() < 0.85 else 'zz'
+        if rng.random() < 0.15:
+            out += ['reactant', 'r2', 'group', rng.choice(['g', 'r1'])]
+        else:
+            out += ['reactant', rng.choice(['r2', 'r2', 'r1', 'r']), 'duplicates', src]
+        out.append('(')
+        for i, (a, b) in enumerate(pairs or [('a', 'b')]):
+            out += ([','] if i else []) + [a, '=>', b]
+        out.append(')')
+        pool = mine + new + ['zz']
+        for _ in range(rng.randint(1, 3)):
+            t = rng.choice(['form', 'break', 'modify bond', 'increase bond order', 'increase number of radical',
+                            'decrease number of radical', 'increase formal charge', 'modify number of radical', 'modify atomtype'])
+            a, b = rng.choice(pool), rng.choice(pool)
+            if t in ('form', 'break'):
+                out += [t] + ([rng.choice(literal_alts('BondType') or ['single'])] if rng.random() < 0.5 else []) + ['bond', '(', a, ',', b, ')']
+            elif t == 'modify bond':
+                out += [t, '(', a, ',', b, ',', rng.choice(literal_alts('BondType') or ['single']), ')']
+            elif t.endswith('bond order'):
+                out += [t, '(', a, ',', b, ')']
+            elif t == 'modify number of radical':
+                out += [t, '(', a, ',', str(rng.randint(0, 3)), ')']
+            elif t == 'modify atomtype':
+                out += [t, '(', a, ','] + ([rng.choice(literal_alts('AtomPrefix') or ['aromatic'])] if rng.random() < 0.2 else []) + \
+                    [rng.choice(['C', 'H', 'O'])] + ([rng.choice(literal_alts('AtomSuffix') or ['+'])] if rng.random() < 0.6 else []) + [')']
+            else:
+                out += [t, '(', a, ')']
+        out.append('}')
+        return out
     if k == 0:      # C-H scission
         out += ['reactant', 'r1', '{', 'C', 'labeled', 'c1', 'H', 'labeled', 'h1', 'single', 'bond to', 'c1', '}',
                 'break', 'bond', '(', 'c1', ',', 'h1', ')', 'increase number of radical', '(', 'c1', ')',
@@ -386,7 +432,8 @@ def valid_rule(rng):
             elif t == 'modify number of radical':
                 out += [t, '(', a, ',', str(rng.randint(0, 3)), ')']
             elif t == 'modify atomtype':
-                out += [t, '(', a, ',', rng.choice(['C', 'H', 'O']), ] + ([rng.choice(['+', '-', '.', ':', '*', '?'])] if rng.random() < 0.6 else []) + [')']
+                out += [t, '(', a, ','] + ([rng.choice(literal_alts('AtomPrefix') or ['aromatic'])] if rng.random() < 0.2 else []) + \
+                    [rng.choice(['C', 'H', 'O'])] + ([rng.choice(literal_alts('AtomSuffix') or ['+'])] if rng.random() < 0.6 else []) + [')']
             else:
                 out += [t, '(', a, ')']
     out.append('}')
@@ -422,6 +469,81 @@ def misuse(rng):
     return t + ['}']
 
 
+def systematic_texts():
+    """small exhaustive sweeps over the live vocabulary: every suffix, prefix, symbol class, bond kind (in every position
+    that takes one), constraint form x Boolean x operator, molecule prefix combination, stereo type, transformation"""
+    from pgradd.RINGParser import Grammar
+    out = []
+    bts = literal_alts('BondType')
+    sufs = literal_alts('AtomSuffix')
+    prefs = literal_alts('AtomPrefix')
+    bools = literal_alts('Boolean')
+    syms = [a.tok for a in getattr(getattr(Grammar.enhanced_grammar[1].get('Symbols'), 'alts', [None])[0], 'alts', []) if hasattr(a, 'tok')]
+    cn = Grammar.enhanced_grammar[1].get('ConstraintNumber')
+    ops = [a.tok for a in getattr(getattr(getattr(cn, 'reqs', [None])[0], 'opt', None), 'alts', []) if hasattr(a, 'tok')]
+    for x in sufs:
+        out.append('fragment a{C%s labeled c1}' % x)
+        out.append('fragment a{c%s labeled c1}' % x)
+        out.append('rule r{reactant r1{C labeled c1} modify atomtype (c1, C%s)}' % x)
+        out.append('fragment a{C labeled c1 {connected to >1 O%s}}' % x)
+    for x in prefs:
+        out.append('fragment a{%s C labeled c1}' % x)
+        out.append('rule r{reactant r1{C labeled c1} modify atomtype (c1, %s C)}' % x)
+    for x in syms + ['M', 'C', 'Pt', 'c', 'Zz', 'zz', 'Uup', 'ſi', 'É']:
+        out.append('fragment a{%s labeled c1}' % x)
+        out.append('fragment a{C labeled c1 {connected to %s}}' % x)
+    for x in bts:
+        out.append('fragment a{C labeled c1 C labeled c2 %s bond to c1}' % x)
+        out.append('fragment a{C labeled c1 C labeled c2 single bond to c1 C labeled c3 single bond to c2 ringbond c3 %s bond to c1}' % x)
+        out.append('fragment a{C labeled c1 {connected to C with %s bond}}' % x)
+        for t in ('form', 'break'):
+            out.append('rule r{reactant r1{C labeled c1 C labeled c2 %s bond to c1} %s %s bond (c1, c2)}' % (x, t, x))
+            out.append('rule r{reactant r1{C labeled c1 C labeled c2 single bond to c1} %s %s bond (c1, c2)}' % (t, x))
+        for y in bts:
+            out.append('rule r{reactant r1{C labeled c1 C labeled c2 %s bond to c1} modify bond (c1, c2, %s)}' % (x, y))
+    for b in [''] + bools:
+        for form in ('connected to 2 C', 'connected to C', 'in ring of size 5', 'has 1 radical electrons', 'in 2 ring', 'connected to group g'):
+            out.append('fragment a{C labeled c1 {%s %s}}' % (b, form))
+    for o in ops:
+        for form in ('connected to %s2 C', 'in ring of size %s5', 'has %s1 radical electrons', 'in %s2 ring'):
+            out.append('fragment a{C labeled c1 {%s}}' % (form % o))
+    body = Grammar.enhanced_grammar[1].get('Prefix')
+    groups = [[''] + [a.tok for a in getattr(getattr(o, 'opt', None), 'alts', []) if hasattr(a, 'tok')] for o in getattr(body, 'reqs', [])]
+    import itertools
+    for combo in itertools.product(*groups):
+        out.append(' '.join(c for c in combo if c) + ' fragment a{C labeled c1}')
+    for ty in literal_alts('DoubleBondStereoType'):
+        for b in ['', '!', '-']:
+            out.append('fragment a{C labeled c1 C labeled c2 double bond to c1 H labeled h1 single bond to c1 H labeled h2 single bond to c2 '
+                       'stereo double bond h1 %s %s to h2 for double bond between c1 and c2}' % (b, ty))
+    base = 'rule r{reactant r1{C labeled c1 H labeled h1 single bond to c1} %s}'
+    for t in ('increase bond order (c1, h1)', 'decrease bond order (c1, h1)', 'increase number of radical (c1)', 'decrease number of radical (c1)',
+              'increase formal charge (c1)', 'decrease formal charge (c1)', 'modify number of radical (c1, 0)', 'modify number of radical (c1, 2)',
+              'increase formal charge (c1) decrease formal charge (h1)', 'increase number of radical (c1) decrease number of radical (c1)',
+              'constraints{ r1.size > 3 } increase formal charge (c1)', 'constraints{ r1 is cyclic } break bond (c1, h1)',
+              'constraints{ fragment f{C labeled x} r1 contains >1 of f && r1.charge = 0 } break bond (c1, h1)',
+              'constraints{ r1.formula is C 2 H 6 } break bond (c1, h1)', 'constraints{ (r1 is aromatic) || ! r1 is foo } break bond (c1, h1)'):
+        out.append(base % t)
+    base2 = 'rule r{reactant r1{C labeled c1 H labeled h1 single bond to c1 H labeled h2 any bond to c1} reactant r2{O labeled x1} %s}'
+    labs = ['c1', 'h1', 'h2', 'x1', 'zz']
+    for a in labs:
+        for b in labs:
+            for t in ('form bond (%s, %s)', 'break bond (%s, %s)', 'break single bond (%s, %s)', 'modify bond (%s, %s, double)',
+                      'increase bond order (%s, %s)', 'decrease bond order (%s, %s)'):
+                out.append(base2 % (t % (a, b)))
+    return out
+
+
+def stereo_misuse_texts():
+    labs = ['h1', 'h2', 'c1', 'c2', 'o1', 'n1', 'zz']
+    base = ('fragment a{C labeled c1 C labeled c2 double bond to c1 H labeled h1 single bond to c1 H labeled h2 single bond to c2 '
+            'O labeled o1 single bond to c2 N labeled n1 single bond to o1 stereo double bond %s cis to %s for double bond between %s and %s}')
+    import itertools
+    first = [('n1', 'h2', 'c1', 'c2'), ('h1', 'n1', 'c1', 'c2'), ('h1', 'h1', 'c1', 'c2'), ('h1', 'h2', 'c1', 'c2'), ('h1', 'o1', 'c2', 'c1'),
+             ('h1', 'h2', 'c2', 'o1'), ('h1', 'h2', 'c1', 'n1'), ('h1', 'h2', 'c1', 'zz')]
+    return [base % c for c in first] + [base % c for c in itertools.product(labs, repeat=4) if c not in first]
+
+
 def generate_inputs(ctx):
     """-> list of (source, text, strict)"""
     from pgradd.RINGParser import Parser as P, Grammar
@@ -445,13 +567,18 @@ def generate_inputs(ctx):
     distinct_shipped = sorted(set(shipped))
     for t in distinct_shipped:
         add('shipped', t, False)
+    for t in systematic_texts():
+        add('systematic', t, False)
+    st = stereo_misuse_texts()
+    for t in (st if ctx.thorough() else st[:8] + rng.sample(st[8:], 140)):
+        add('systematic', t, False)
     # valid streams
     valid = []
     for _ in range(ctx.n(160, 3000)):
         toks, _ = valid_fragment(rng)
         valid.append(toks)
         add('valid_fragment', G.join(rng, toks, messy=rng.random() < 0.4))
-    for _ in range(ctx.n(90, 1500)):
+    for _ in range(ctx.n(260, 5000)):
         toks = valid_rule(rng)
         valid.append(toks)
         add('valid_rule', G.join(rng, toks, messy=rng.random() < 0.4))
@@ -614,15 +741,35 @@ def run(ctx):
         ctx.count('corpus')
         inp = rec.get('input', rec)
         check_texts(ctx, [('corpus', inp['text'], bool(inp.get('strict', False)))], batch)
-    cov = start_coverage()
-    try:
-        items = generate_inputs(ctx)
-        check_texts(ctx, items, batch)
-    finally:
-        stop_coverage(ctx, cov)
+    items = generate_inputs(ctx)
+    check_texts(ctx, items, batch)
     recursion_probe(ctx)
     finish_batch(ctx, batch)
+    measure_reach(ctx, batch)
     reach_floor(ctx)
+
+
+def measure_reach(ctx, batch):
+    """implementation-side reach: statement coverage of the anchored files, measured in a second pass over the texts
+    that returned in the first one (an exception raised from the alarm handler dead-locks coverage's tracer, so the
+    measured pass runs without alarm; the texts are deterministic and have already terminated once)"""
+    if ctx.searching or ctx.violations:
+        return
+    cov = start_coverage()
+    if cov is None:
+        return
+    from pgradd.RINGParser import Read
+    try:
+        for req, (r, rp), (text, strict) in batch:
+            if r['cls'] == 'hang' or rp.get('cls') == 'hang':
+                continue
+            try:
+                Read(text, strict)
+            except BaseException as e:
+                if isinstance(e, (KeyboardInterrupt, SystemExit)):
+                    raise
+    finally:
+        stop_coverage(ctx, cov)
 
 
 def replay(ctx, rec, record=False):
@@ -657,6 +804,19 @@ def start_coverage():
         return None
 
 
+def body_lines(path):
+    """line numbers of statements inside function bodies (module/class-level lines run at import, before the measurement)"""
+    import ast
+    tree = ast.parse(open(path, encoding='utf-8').read())
+    out = set()
+    for f in ast.walk(tree):
+        if isinstance(f, (ast.FunctionDef, ast.AsyncFunctionDef)):
+            for n in ast.walk(f):
+                if isinstance(n, ast.stmt) and n is not f:
+                    out.add(n.lineno)
+    return out
+
+
 def stop_coverage(ctx, cov):
     if cov is None:
         return
@@ -667,9 +827,12 @@ def stop_coverage(ctx, cov):
         res = {}
         for a in ANCHORS:
             try:
-                an = cov.analysis2(os.path.join(root, a))
-                stm, miss = len(an[1]), len(an[3])
-                res[a] = {'statements': stm, 'executed': stm - miss, 'missing_lines': an[3][:60]}
+                path = os.path.join(root, a)
+                an = cov.analysis2(path)
+                body = body_lines(path)
+                stm = [l for l in an[1] if l in body]
+                miss = [l for l in an[3] if l in body]
+                res[a] = {'function_body_statements': len(stm), 'executed': len(stm) - len(miss), 'missing_lines': miss[:80]}
             except Exception as e:
                 res[a] = {'error': type(e).__name__}
         ctx.extra.setdefault('coverage', {})['implementation_reach'] = res
@@ -691,6 +854,16 @@ def reach_floor(ctx):
         raise common.MachineryError('generator reach fell below the floor: %r' % low)
 
 
-LEVEL_TEXT = ''
-LEVEL_NOTE = ''
+LEVEL_TEXT = ('Lean 4 theorems for every text of any length and content: on a statically well-ranked grammar table the parser ends in '
+              'accepted or a syntax error (never stuck, missing rule, hang or internal exception; termination is Lean\'s own check), '
+              'every state keeps (line, col) = line/column of the stream index <= |text| so every reported error lies inside the text, '
+              'accepted text is consumed to its last character, and Read never hangs; the well-rankedness, defined-references and '
+              'non-empty-token checks are kernel-decided over both grammar dictionaries regenerated from the working tree on every run; '
+              'the model is tied to the code by a correspondence run of outcome class, error position, expected-token set, AST and '
+              'atom/bond/label counts. Right level: the quantifier is over all strings, which only a proof covers.')
+LEVEL_NOTE = ('Trusted: Lean kernel; axioms propext/Classical.choice/Quot.sound; the grammar/character/element translators; the '
+              'correspondence harness. Modelled not verified: Parser.py, Reader.py, MolQueryRead.py, ReactionQueryRead.py (outcome '
+              'skeleton only: what constraints and query atoms mean is C08). Partial: "no internal exception from the readers" is proved '
+              'up to tree shapes the reader does not expect (C09_read_internal_partial); wall-clock time and the interpreter recursion '
+              'limit (F29) are outside the model.')
 TECHNIQUE = 'Lean 4 proof over hand-written model + correspondence check + table translator'
